@@ -233,8 +233,8 @@ def rule_b(ctx, out):
             raise AnalysisError("no two's-complement reinterpretation found in the folders (sar)")
     # (v) every operator dispatched by compute_binary has a branch
     cb = ctx.func(f"{GO}.compute_binary")
-    lists = [n for n in own_nodes(cb.node) if isinstance(n, ast.Compare) and is_name(n.left, "funct") and isinstance(n.ops[0], ast.In)
-             and isinstance(n.comparators[0], ast.List)]
+    lists = [n for n in own_nodes(cb.node) if isinstance(n, ast.Compare) and isinstance(n.left, ast.Name) and isinstance(n.ops[0], ast.In)
+             and isinstance(n.comparators[0], ast.List) and len(n.comparators[0].elts) >= 8 and all(isinstance(e, ast.Constant) and isinstance(e.value, str) for e in n.comparators[0].elts)]
     if not lists:
         raise AnalysisError("compute_binary: operator dispatch list not found")
     ops = max(([e.value for e in l.comparators[0].elts if isinstance(e, ast.Constant)] for l in lists), key=len)
@@ -266,8 +266,8 @@ def rule_b(ctx, out):
         elif kind == "return" and not [i for i in issues if i.kind != "wrap"] and not (iv[0] >= 0 and iv[1] <= wordint.WMAX):
             out.bad(f"fold3:{sel}:out-of-domain", f"ternary folding of `{sel}` can leave the word domain", where(g, st))
     ct = ctx.func(f"{GO}.compute_ternary")
-    tl = [n for n in own_nodes(ct.node) if isinstance(n, ast.Compare) and is_name(n.left, "funct") and isinstance(n.ops[0], ast.In)
-          and isinstance(n.comparators[0], ast.List)]
+    tl = [n for n in own_nodes(ct.node) if isinstance(n, ast.Compare) and isinstance(n.left, ast.Name) and isinstance(n.ops[0], ast.In)
+          and isinstance(n.comparators[0], ast.List) and n.comparators[0].elts and all(isinstance(e, ast.Constant) and isinstance(e.value, str) for e in n.comparators[0].elts)]
     if not tl:
         raise AnalysisError("compute_ternary: operator dispatch list not found")
     tbranches = {sel for sel, st, env, iv, issues, kind in wordint.analyse_returns(g.node, g.params[1:], consts, selector=g.params[0]) if sel}
@@ -357,22 +357,48 @@ def rule_d(ctx, out):
         out.ok({"check_size": norm(cmpn[0])})
     else:
         out.bad("check_size:comparison-changed", "check_size no longer accepts only results that are not larger than the operands plus the operation", where(cs))
-    # NOT folds: under size_flag the value is used only on the `bytes_sol <= bytes_v0 + 1` branch
+    # NOT folds: in size mode the folded value is returned / used only along the accepting edge of the byte-size comparison
+    #   <bytes of the folded constant>  <=  <bytes of the operand> + 1      (in whatever form: `<=` then-branch, `>` guard clause, ...)
     for q in (f"{GO}.update_unary_func", f"{GO}.apply_transform"):
         h = ctx.func(q)
         hcfg = ctx.cfg(h)
+        byte_vars = {t.id for n in own_nodes(h.node) if isinstance(n, ast.Assign) and isinstance(n.value, ast.Call) and call_name(n.value) == "get_num_bytes_int"
+                     for t in n.targets if isinstance(t, ast.Name)}
+        gates_ = [n for n in hcfg.nodes if n.kind == "test" and is_name(n.ast, "size_flag")]
+        if not gates_:
+            continue
+        # the folded value: the local computed with ~ ... + 2**256
+        folded = {t.id for n in own_nodes(h.node) if isinstance(n, ast.Assign) and any(isinstance(x, ast.UnaryOp) and isinstance(x.op, ast.Invert) for x in ast.walk(n.value))
+                  for t in n.targets if isinstance(t, ast.Name)}
+        uses = [n for n in hcfg.nodes if n.kind == "stmt" and isinstance(n.ast, (ast.Return, ast.Assign)) and n.ast.value is not None
+                and any(isinstance(x, ast.Name) and x.id in folded for x in ast.walk(n.ast.value))
+                and not (isinstance(n.ast, ast.Assign) and (any(isinstance(t, ast.Name) and t.id in byte_vars | folded for t in n.ast.targets)))]
+        btests = []
         for n in hcfg.nodes:
-            if n.kind == "test" and is_name(n.ast, "size_flag"):
-                body = n.owner.body
-                inner = [s for s in body if isinstance(s, ast.If) and "bytes_sol" in norm(s.test)]
-                uses = [s for s in ast.walk(ast.Module(body=body, type_ignores=[])) if isinstance(s, (ast.Return, ast.Assign))
-                        and any(is_name(x, "val_end") for x in ast.walk(s.value if s.value is not None else ast.Constant(value=0)))
-                        and not (isinstance(s, ast.Assign) and any("bytes" in norm(t) for t in s.targets))]
-                guarded = all(any(s in list(ast.walk(ast.Module(body=i.body, type_ignores=[]))) for i in inner) for s in uses)
-                if inner and guarded and all(isinstance(i.test, ast.Compare) and isinstance(i.test.ops[0], (ast.LtE, ast.Lt)) for i in inner):
-                    out.ok({"function": h.name, "NOT fold in size mode": norm(inner[0].test)})
-                else:
-                    out.bad(f"{h.name}:not-fold-size-gate", "in size mode the NOT fold is applied without the byte-size comparison", where(h, n.ast))
+            if n.kind == "test" and isinstance(n.ast, ast.Compare) and len(n.ast.ops) == 1 and {x.id for x in ast.walk(n.ast) if isinstance(x, ast.Name)} & byte_vars:
+                op = type(n.ast.ops[0])
+                left_names = {x.id for x in ast.walk(n.ast.left) if isinstance(x, ast.Name)}
+                # which side holds the size of the folded constant?  it is the byte variable computed from the folded value
+                sol_vars = {t.id for a_ in own_nodes(h.node) if isinstance(a_, ast.Assign) and isinstance(a_.value, ast.Call) and call_name(a_.value) == "get_num_bytes_int"
+                            and any(isinstance(x, ast.Name) and x.id in folded for x in ast.walk(a_.value)) for t in a_.targets if isinstance(t, ast.Name)}
+                sol_left = bool(left_names & sol_vars)
+                accept = {ast.LtE: "T", ast.Lt: "T", ast.Gt: "F", ast.GtE: "F"} if sol_left else {ast.GtE: "T", ast.Gt: "T", ast.Lt: "F", ast.LtE: "F"}
+                if op in accept:
+                    btests.append((n, accept[op]))
+        for g_ in gates_:
+            guarded_uses = [u for u in uses if hcfg.reaches(g_, u, src_labels={"T"})]
+            if not guarded_uses:
+                continue
+            if not btests:
+                out.bad(f"{h.name}:not-fold-size-gate", "in size mode the NOT fold is applied without the byte-size comparison", where(h, g_.ast))
+                continue
+            # cut the accepting edges: no use of the folded value may remain reachable from the size-mode branch
+            leak = [u for u in guarded_uses if hcfg.reaches(g_, u, src_labels={"T"}, removed_edges=[(t, lab) for t, lab in btests])]
+            if leak:
+                out.bad(f"{h.name}:not-fold-size-gate", "in size mode the NOT fold can be used on a path that does not pass the accepting side of the byte-size "
+                        "comparison", where(h, leak[0].ast))
+            else:
+                out.ok({"function": h.name, "NOT fold in size mode": [norm(t.ast) + " / " + lab for t, lab in btests]})
 
 
 def rule_e(ctx, out):
